@@ -13,6 +13,18 @@ claimed = {
    text="Bounded symbolic execution of the real encoder/decoder (entities.* and collector.decodeDataSet, from go/ssa of /repo's working tree): for each of 22 element kinds and each stated string length, every value bit is a solver variable; length agreement, byte-exact reference encoding, round trip through both decoders and exact consumption are SMT obligations (z3; cvc5 cross-check in the thorough tier). unsat = holds for all values within the bounds; sat = concrete input, replayed natively before it is reported.",
    note="Bounds: lengths quick {0..40,250..260,65530..65535}, thorough {0..1100,65500..65535}; one element between two sentinels. Trusted: go/ssa, the solvers, std-library code executed from SSA; interpreter validated per run against the native build on concrete vectors.",
    tech="symbolic execution of Go SSA + SMT (z3/cvc5), bounded"),
+ "C02": dict(cat="model_checking", sec="DESIGN.md section 4, C02",
+   text="Bounded symbolic execution of the real exporter (SendSet, createAndSendIPFIXMsg, CreateIPFIXMsg, set/record/element encoders) writing to a recording net.Conn; the captured bytes of every template and data message are compared, as SMT obligations over all values, with an encoder written from RFC 7011 that shares no code with the library. Template shapes are enumerated exhaustively within the bound; all values, ids, domain and sequence state are solver variables.",
+   note="Bounds: templates of 1..2 (quick) / 1..3 (thorough) fields over 22 element kinds incl. enterprise 29305/56506/user; 1..3 records; boundary string lengths; thorough adds every registry element id 0..520 x 4 enterprises as a one-field template. Larger templates/record counts outside. Background goroutines not started (C14).",
+   tech="symbolic execution of Go SSA + SMT (z3/cvc5), differential against an independent RFC 7011 reference encoder"),
+ "C08": dict(cat="model_checking", sec="DESIGN.md section 4, C08",
+   text="One-to-three inductive steps of the real SendSet from an arbitrary 32-bit sequence-counter state (hook VerifSetSeq; the 2^32 wrap is just another solver value), symbolic observation domain and a symbolic non-decreasing wall clock: header sequence, stored counter, domain, export time, single Write and byte count are SMT obligations on every path.",
+   note="Bounds: 1..2/1..3 successive sends, 1..3 records each. Failed sends outside the statement. Clock stubbed as a symbolic non-decreasing instant.",
+   tech="symbolic execution of Go SSA + SMT, inductive step over the counter state"),
+ "C09": dict(cat="model_checking", sec="DESIGN.md section 4, C09",
+   text="Refusal cases of the real SendSet on a byte-recording net.Conn with symbolic template ids, values and set length: unknown template id (transmitted iff the solver-visible id equals one that was sent), field-count mismatch at any record position, every message size 65519..65540 plus a symbolic set length for the limit comparison itself, undefined set type, and ill-typed values (wrong address family / wrong fixed length) which must be refused rather than altered; after every refusal zero bytes were written and a following send is byte-identical to the reference encoding.",
+   note="Bounds as listed per harness in the evidence; sequence-number state after a failed send is outside the statement (C08) and is read back from the wire.",
+   tech="symbolic execution of Go SSA + SMT, bounded; refusal oracle on recorded writes"),
 }
 
 NA = {
